@@ -2662,7 +2662,17 @@ def _qp_registry():
         return SNone
 
     reg.contracts["*._handle_message"] = handle_message
-    reg.contracts["*._start_lock_heartbeat"] = lambda I, a, k: SNone
+    def start_heartbeat(I, a, k):
+        """assumed: a background thread that keeps extending the lock of the message until the returned Event is set (None when
+        heart-beating is off)"""
+        ev = T.new_model_obj(I, "Event", "heartbeat_stop")
+        I.st.emit("heartbeat_started")
+        I.st.objs[ev.oid].fields["set"] = SModel(lambda I2, a2, k2: (I2.st.emit("heartbeat_stopped"), SNone)[1], None, "Event.set")
+        off = fresh_bool("heartbeat_off")
+        I.st.ghost["heartbeat_off"] = off
+        return SOpt(ev, off)
+
+    reg.contracts["*._start_lock_heartbeat"] = start_heartbeat
 
     def poll_one(I, a, k):
         m = T.new_symbolic(I, "Message", "polled")
@@ -2712,6 +2722,12 @@ def _ack_after_handler(ctx):
              ("at-most-one-ack", z3.BoolVal(len(acks) <= 1))]
     if hm:
         goals.append(("acked-or-rescheduled", z3.BoolVal(bool(acks) or bool(resch))))
+    # the lock heartbeat of the message is stopped on EVERY exit, failure included: a heartbeat that outlives a failed handling
+    # keeps re-locking the rescheduled message, which is then never redelivered and never dead-lettered
+    started = [i for i, e in enumerate(effs) if e.kind == "heartbeat_started"]
+    stopped = [i for i, e in enumerate(effs) if e.kind == "heartbeat_stopped"]
+    if started:
+        goals.append(("heartbeat-stopped-on-every-exit", z3.Or(ctx.st.ghost["heartbeat_off"], z3.BoolVal(bool(stopped)))))
     return goals
 
 
